@@ -106,6 +106,8 @@ def run(chk):
         for c_ in pipegen.process_name_cases(callers):
             runner.run_case(c_)
             chk.count("long_process_name_cases")
+        from checks import c07
+        c07.slow_host_then_port_reuse(chk, stack, callers, what="refused request did not get one of 404/421/500/403")
         runner.finish(oracle)
         if stack.panics():
             chk.notes.append("panics observed: " + "; ".join(stack.panics()[:3]))
@@ -114,6 +116,10 @@ def run(chk):
         chk.sample(runner.describe(runner.observations[-1]))
     finally:
         stack.close()
+    # a request that arrives while a poll is replacing the rule set
+    from checks import c09
+    c09.request_during_rule_change(chk, binp, what="bytes reached a metadata host although the connection was not attributed / the path had '..' / the "
+                                                    "policy could not be looked up / the policy does not authorize the caller")
     # the policy cannot be looked up (the actor holding it has died): nothing is relayed, the client gets an error status
     for ob in [o_ for first in ("ws", "imds", "ws-elevated") for o_ in pipe.rules_lookup_fails(binp, chk.count, first)]:
         chk.case(nontrivial_key=("rules-lookup-fails", ob["label"], ob["elevated"], ob["actor"], ob["status"]))
